@@ -4,5 +4,5 @@ i=$1
 cd /tmp/wt_$i || exit 9
 PYTHONPATH=/tmp/wt_$i/src /venv/bin/python -m pytest -q -p no:cacheprovider --timeout=900 2>&1 | tail -1 > /tmp/tests_$i.log
 PYTHONPATH=/tmp/wt_$i/src /venv/bin/python _mutant/demo.py >/dev/null 2>&1; echo "with=$?" >> /tmp/tests_$i.log
-cd /repo; PYTHONPATH=/repo/src /venv/bin/python /tmp/wt_$i/_mutant/demo.py > /dev/null 2>&1; echo "without=$?" >> /tmp/tests_$i.log
+cd /tmp/wt_clean; PYTHONPATH=/tmp/wt_clean/src /venv/bin/python /tmp/wt_$i/_mutant/demo.py > /dev/null 2>&1; echo "without=$?" >> /tmp/tests_$i.log
 cat /tmp/tests_$i.log
